@@ -1,8 +1,8 @@
-"""E5: guarded effect summaries (abstract execution of orchestration code to canonical terms).
+"""E6: guarded effect summaries (abstract execution of orchestration code to canonical terms).
 
 Dispatch-heavy functions (Network::_forward, Feedback::forward, the loop block of Network::forward, the accuracy
 selection in validate) are not arithmetic: what matters is *which* layer method is applied to *which* value and
-*where* each result is recorded, per enum variant.  E5 executes a HIR body abstractly:
+*where* each result is recorded, per enum variant.  E6 executes a HIR body abstractly:
 
   * values are canonical terms (nested tuples): parameters, calls, fields, indices, tuples/projections, enum
     constructors and payloads; `clone`, references and derefs are transparent; Some(x).unwrap() = x;
@@ -259,7 +259,7 @@ class Exec:
             if k == "or":
                 facts.append((("matches", v, "|".join(sorted(self._vpath(q.get("path", "?")) for q in p["ps"]))), True))
                 return True
-            raise Unestablished("E5: pattern kind %s" % k)
+            raise Unestablished("E6: pattern kind %s" % k)
         ok = rec(pat, val)
         if not ok:
             return None, {}
@@ -316,7 +316,7 @@ class Exec:
 
     def _cap(self, paths):
         if len(paths) > MAXPATHS:
-            raise Unestablished("E5: more than %d paths" % MAXPATHS)
+            raise Unestablished("E6: more than %d paths" % MAXPATHS)
 
     def evals(self, nodes, st):
         """evaluate pure-ish argument lists: returns [(path, [values])]"""
@@ -404,7 +404,7 @@ class Exec:
         if k == "let":
             return self.let(n, st)
         if k == "letx":
-            raise Unestablished("E5: `let` expression outside a condition")
+            raise Unestablished("E6: `let` expression outside a condition")
         if k == "if":
             return self.if_(n, st)
         if k == "match":
@@ -428,7 +428,7 @@ class Exec:
             return self.call(n, st)
         if k == "mcall":
             return self.mcall(n, st)
-        raise Unestablished("E5: node kind %s: %s" % (k, short(pretty(n), 60)))
+        raise Unestablished("E6: node kind %s: %s" % (k, short(pretty(n), 60)))
 
     def block(self, b, st):
         nodes = list(b["stmts"]) + ([b["tail"]] if b["tail"] is not None else [])
@@ -493,7 +493,7 @@ class Exec:
         if c0 is not None and c0.get("k") == "bin" and c0["op"] in ("And", "Or") and any(y.get("k") == "letx" for y in walk(c0)):
             # let-chains: `a && let P = e`
             if c0["op"] != "And":
-                raise Unestablished("E5: `||` with a let condition")
+                raise Unestablished("E6: `||` with a let condition")
             out = []
             for (p, t) in self.cond_paths(c0["l"], st):
                 if t is not True:
